@@ -10,5 +10,6 @@ CONSTANTS
   WKey = 1
   WEnv = 1
   WLoad = 1
+  WSig = 1
   WDecode = 1
 CHECK_DEADLOCK FALSE
